@@ -319,68 +319,74 @@ def run(chk):
     rnd = chk.rnd
     hists = []
     n_hist = 60 if quick else 600
-    with gw.Site({"iam": False, "versioning": True}, name="c09") as site:
-        hk = hooks.Hooks(site.base)
-        g = site.gateway(gwbin, extra_env=hk.env())
-        cl = s3c.Client(g.port, "root", "rootsecret")
-        def interrupt(pth, body):
-            where = rnd.choice(["posix.putobject.bodywritten", "posix.objversion.copied", "posix.objversion.stored", "posix.objversion.stored", "posix.putobject.beforelink"])
-            g.restart(); hk.clear(); hk.crash_at(where, 1)
-            hk.crash_at("posix.putobject.beforelink", 1)        # (the archiving sites are only passed when there is something to archive)
-            r = cl.req("PUT", pth, body=body)
-            if r.status == -1:
-                try: g.proc.wait(timeout=3)
-                except Exception: pass
-            died = not g.alive()
-            hk.clear(); g.restart()
-            chk.require(died, "c09:setup", "an overwrite armed to die at %s was answered %d" % (where, r.status))
-            return where
-        for h in range(n_hist):
-            bk = "vb%04d" % h
-            chk.require(cl.req("PUT", "/" + bk).status == 200 and cl.req("PUT", "/%s-src" % bk).status == 200, "c09:setup", "CreateBucket failed")
-            idmap = {}
-            ops, obs, text = history(chk, cl, bk, rnd, rnd.randint(15, 45), idmap, interrupt)
-            hists.append((ops, obs, text))
-            chk.case(("hist", tuple(ops)), sum(1 for o in ops if o.startswith(("Put", "Delete"))) >= 3)
-            for d in (site.root, site.verdir):
-                shutil.rmtree(os.path.join(d, bk), ignore_errors=True); shutil.rmtree(os.path.join(d, bk + "-src"), ignore_errors=True)
-        # ---- a burst of overwrites of one key (several within one millisecond): the listing is newest first in the order the writes were
-        # acknowledged, and deleting the newest by id re-exposes the write before it
-        bk = "vburst"
-        chk.require(cl.req("PUT", "/" + bk).status == 200 and cl.req("PUT", "/" + bk, query={"versioning": ""}, body=b"<VersioningConfiguration><Status>Enabled</Status></VersioningConfiguration>").status == 200,
-                    "c09:setup", "burst bucket setup failed")
-        nburst = 500 if quick else 3000
-        acks = []
-        for i in range(nburst):
-            r = cl.req("PUT", "/%s/burst" % bk, body=b"burst-write-%06d" % i)
-            if r.status == 200: acks.append((i, r.headers.get("x-amz-version-id")))
-        listed, km, vm = [], "", ""
-        for _ in range(nburst // 100 + 5):
-            q = {"versions": "", "max-keys": "1000"}
-            if km: q["key-marker"] = km
-            if vm: q["version-id-marker"] = vm
-            lv = cl.req("GET", "/" + bk, query=q)
-            if lv.status != 200 or lv.xml() is None: break
-            listed += [x.findtext("VersionId") for x in lv.xml().findall("Version")]
-            if lv.xml().findtext("IsTruncated") != "true": break
-            km, vm = lv.xml().findtext("NextKeyMarker") or "", lv.xml().findtext("NextVersionIdMarker") or ""
-        want = [v for _, v in reversed(acks)]
-        same_ms = sum(1 for (_, a), (_, b) in zip(acks, acks[1:]) if a and b and a[:10] == b[:10])
-        chk.case(("burst", nburst), True); chk.traces += 1; chk.count("burst:same-millisecond-pairs:%d" % min(same_ms, 5))
-        if listed != want:
-            firstbad = next((i for i, (a, b) in enumerate(zip(listed, want)) if a != b), min(len(listed), len(want)))
-            chk.fail("c09:burst:listing-not-newest-first", "after %d acknowledged overwrites of one key (%d adjacent pairs within one millisecond) ListObjectVersions is not the acknowledgements in reverse: %d listed, first difference at position %d (listed %s, written %s)"
-                     % (len(acks), same_ms, len(listed), firstbad, listed[firstbad:firstbad + 2], want[firstbad:firstbad + 2]), {"acks": acks[-12:], "listed_head": listed[:12], "same_ms_pairs": same_ms})
-        else:
-            for step in range(1, 4):
-                i, v = acks[-step]
-                dv = cl.req("DELETE", "/%s/burst" % bk, query={"versionId": v}); gv = cl.req("GET", "/%s/burst" % bk)
-                if dv.status != 204 or gv.body != b"burst-write-%06d" % acks[-step - 1][0]:
-                    chk.fail("c09:burst:wrong-version-re-exposed", "deleting the newest version (write %d) by id answers %d and the key then reads %r; the write before it was %d"
-                             % (i, dv.status, gv.body[:30], acks[-step - 1][0]), {"acks": acks[-8:]})
-                    break
-        shutil.rmtree(os.path.join(site.root, bk), ignore_errors=True); shutil.rmtree(os.path.join(site.verdir, bk), ignore_errors=True)
-        chk.tie("gateway still running", g.alive(), g.log_tail())
+    # the attribute store by name (--sidecar) keeps a version's attributes apart from its data: the same programs run there
+    for label, cfg, hbase, nh in (("xattr", {"iam": False, "versioning": True}, 0, n_hist), ("sidecar", {"iam": False, "versioning": True, "meta": "sidecar"}, n_hist, max(n_hist // 3, 12))):
+        with gw.Site(cfg, name="c09") as site:
+            hk = hooks.Hooks(site.base)
+            g = site.gateway(gwbin, extra_env=hk.env())
+            cl = s3c.Client(g.port, "root", "rootsecret")
+            def interrupt(pth, body):
+                where = rnd.choice(["posix.putobject.bodywritten", "posix.objversion.copied", "posix.objversion.stored", "posix.objversion.stored", "posix.putobject.beforelink"])
+                g.restart(); hk.clear(); hk.crash_at(where, 1)
+                hk.crash_at("posix.putobject.beforelink", 1)        # (the archiving sites are only passed when there is something to archive)
+                r = cl.req("PUT", pth, body=body)
+                if r.status == -1:
+                    try: g.proc.wait(timeout=3)
+                    except Exception: pass
+                died = not g.alive()
+                hk.clear(); g.restart()
+                chk.require(died, "c09:setup", "an overwrite armed to die at %s was answered %d" % (where, r.status))
+                return where
+            for h in range(hbase, hbase + nh):
+                bk = "vb%04d" % h
+                chk.require(cl.req("PUT", "/" + bk).status == 200 and cl.req("PUT", "/%s-src" % bk).status == 200, "c09:setup", "CreateBucket failed")
+                idmap = {}
+                # (an overwrite killed before publication is C11's question; with the sidecar store it is a listed C11 finding)
+                ops, obs, text = history(chk, cl, bk, rnd, rnd.randint(15, 45), idmap, interrupt if label == "xattr" else None)
+                hists.append((ops, obs, text))
+                chk.case(("hist", tuple(ops)), sum(1 for o in ops if o.startswith(("Put", "Delete"))) >= 3)
+                for d in (site.root, site.verdir):
+                    shutil.rmtree(os.path.join(d, bk), ignore_errors=True); shutil.rmtree(os.path.join(d, bk + "-src"), ignore_errors=True)
+            if label != "xattr":
+                chk.tie("gateway still running (%s)" % label, g.alive(), g.log_tail())
+                continue
+            # ---- a burst of overwrites of one key (several within one millisecond): the listing is newest first in the order the writes were
+            # acknowledged, and deleting the newest by id re-exposes the write before it
+            bk = "vburst"
+            chk.require(cl.req("PUT", "/" + bk).status == 200 and cl.req("PUT", "/" + bk, query={"versioning": ""}, body=b"<VersioningConfiguration><Status>Enabled</Status></VersioningConfiguration>").status == 200,
+                        "c09:setup", "burst bucket setup failed")
+            nburst = 500 if quick else 3000
+            acks = []
+            for i in range(nburst):
+                r = cl.req("PUT", "/%s/burst" % bk, body=b"burst-write-%06d" % i)
+                if r.status == 200: acks.append((i, r.headers.get("x-amz-version-id")))
+            listed, km, vm = [], "", ""
+            for _ in range(nburst // 100 + 5):
+                q = {"versions": "", "max-keys": "1000"}
+                if km: q["key-marker"] = km
+                if vm: q["version-id-marker"] = vm
+                lv = cl.req("GET", "/" + bk, query=q)
+                if lv.status != 200 or lv.xml() is None: break
+                listed += [x.findtext("VersionId") for x in lv.xml().findall("Version")]
+                if lv.xml().findtext("IsTruncated") != "true": break
+                km, vm = lv.xml().findtext("NextKeyMarker") or "", lv.xml().findtext("NextVersionIdMarker") or ""
+            want = [v for _, v in reversed(acks)]
+            same_ms = sum(1 for (_, a), (_, b) in zip(acks, acks[1:]) if a and b and a[:10] == b[:10])
+            chk.case(("burst", nburst), True); chk.traces += 1; chk.count("burst:same-millisecond-pairs:%d" % min(same_ms, 5))
+            if listed != want:
+                firstbad = next((i for i, (a, b) in enumerate(zip(listed, want)) if a != b), min(len(listed), len(want)))
+                chk.fail("c09:burst:listing-not-newest-first", "after %d acknowledged overwrites of one key (%d adjacent pairs within one millisecond) ListObjectVersions is not the acknowledgements in reverse: %d listed, first difference at position %d (listed %s, written %s)"
+                         % (len(acks), same_ms, len(listed), firstbad, listed[firstbad:firstbad + 2], want[firstbad:firstbad + 2]), {"acks": acks[-12:], "listed_head": listed[:12], "same_ms_pairs": same_ms})
+            else:
+                for step in range(1, 4):
+                    i, v = acks[-step]
+                    dv = cl.req("DELETE", "/%s/burst" % bk, query={"versionId": v}); gv = cl.req("GET", "/%s/burst" % bk)
+                    if dv.status != 204 or gv.body != b"burst-write-%06d" % acks[-step - 1][0]:
+                        chk.fail("c09:burst:wrong-version-re-exposed", "deleting the newest version (write %d) by id answers %d and the key then reads %r; the write before it was %d"
+                                 % (i, dv.status, gv.body[:30], acks[-step - 1][0]), {"acks": acks[-8:]})
+                        break
+            shutil.rmtree(os.path.join(site.root, bk), ignore_errors=True); shutil.rmtree(os.path.join(site.verdir, bk), ignore_errors=True)
+            chk.tie("gateway still running", g.alive(), g.log_tail())
     if not built:
         return
     text = ("From Coq Require Import List ZArith Bool.\nFrom VGW Require Import Model.Versions Check.VersionsCheck.\nImport ListNotations.\nOpen Scope nat_scope.\n")
@@ -400,6 +406,8 @@ def run(chk):
                 flat = {k: v for k, v in m[1].items() if "/" not in KEYS[k]}
                 pref = tuple(sorted({KEYS[k].split("/")[0] + "/" for k, v in m[1].items() if "/" in KEYS[k] and (v[0] or v[1])}))
                 o, m = ("list", o[1], o[2]), ("list", flat, pref)
+            if hi >= n_hist and o[0] == "err" and m[0] == "err":
+                continue      # the attribute store by name reports a missing key / version under other codes: which error is not a question of the version history
             if tuple(o) != tuple(m):
                 # the reference machine is the Spec: a disagreement is a concrete failing history
                 kind = ops[i].split(" ")[0]
